@@ -2039,7 +2039,7 @@ func (t *tScreen) Tty() (Tty, bool) {
 func (t *tScreen) engage() error {
 	t.Lock()
 	defer t.Unlock()
-	if t.tty == nil {
+	if t.tty == nil || t.fini {
 		return ErrNoScreen
 	}
 	t.tty.NotifyResize(func() {
